@@ -58,3 +58,20 @@ __CPROVER_ensures(__CPROVER_return_value == 0 ==> ((hex_len & 1) == 0 && *bin_le
 __CPROVER_ensures((__CPROVER_return_value == 0 && g_k < hex_len) ==> V_ISHEX(hex[g_k]))
 __CPROVER_ensures((__CPROVER_return_value == 0 && g_m < hex_len / 2) ==> bin[g_m] == (unsigned char) (16 * V_HV(hex[2 * g_m]) + V_HV(hex[2 * g_m + 1])))
 ;
+
+/* ---- functional contract of sodium_base642bin, strict mode (unpadded variants, no ignore set, no end pointer), ghost-index
+ * form, soundness for EVERY text: success implies that every character is in the chosen alphabet, the length is not 1 mod 4,
+ * the reported length is floor(6 len / 8), the trailing bits are zero and every output byte is assembled from its two
+ * 6-bit digits as RFC 4648 prescribes. */
+int sodium_base642bin_strict_spec(unsigned char *const bin, const size_t bin_maxlen, const char *const b64, const size_t b64_len,
+                                  const char *const ignore, size_t *const bin_len, const char **const b64_end, const int variant)
+__CPROVER_requires(bin_maxlen <= 4096 && b64_len <= 4096 && ignore == NULL && b64_end == NULL && (variant == 3 || variant == 7))
+__CPROVER_requires(__CPROVER_is_fresh(bin, bin_maxlen) && __CPROVER_is_fresh(b64, b64_len) && __CPROVER_is_fresh(bin_len, sizeof(size_t)))
+__CPROVER_assigns(__CPROVER_object_upto(bin, bin_maxlen), *bin_len, v_errno)
+__CPROVER_ensures(__CPROVER_return_value == 0 || __CPROVER_return_value == -1)
+__CPROVER_ensures(__CPROVER_return_value == 0 ==> ((b64_len & 3) != 1 && *bin_len == (6 * b64_len) / 8 && *bin_len <= bin_maxlen))
+__CPROVER_ensures((__CPROVER_return_value == 0 && g_k < b64_len) ==> ((((unsigned char)(b64[g_k])) >= 65 && ((unsigned char)(b64[g_k])) <= 90) || (((unsigned char)(b64[g_k])) >= 97 && ((unsigned char)(b64[g_k])) <= 122) || (((unsigned char)(b64[g_k])) >= 48 && ((unsigned char)(b64[g_k])) <= 57) || ((unsigned char)(b64[g_k])) == (((variant & 4) != 0) ? 45 : 43) || ((unsigned char)(b64[g_k])) == (((variant & 4) != 0) ? 95 : 47)))
+__CPROVER_ensures((__CPROVER_return_value == 0 && g_m < (6 * b64_len) / 8) ==> bin[g_m] == ((g_m % 3 == 0) ? (unsigned char)((((unsigned int)(((unsigned char)(b64[4 * (g_m / 3) + 0])) >= 65 && ((unsigned char)(b64[4 * (g_m / 3) + 0])) <= 90 ? ((unsigned char)(b64[4 * (g_m / 3) + 0])) - 65 : (((unsigned char)(b64[4 * (g_m / 3) + 0])) >= 97 && ((unsigned char)(b64[4 * (g_m / 3) + 0])) <= 122 ? ((unsigned char)(b64[4 * (g_m / 3) + 0])) - 71 : (((unsigned char)(b64[4 * (g_m / 3) + 0])) >= 48 && ((unsigned char)(b64[4 * (g_m / 3) + 0])) <= 57 ? ((unsigned char)(b64[4 * (g_m / 3) + 0])) + 4 : (((unsigned char)(b64[4 * (g_m / 3) + 0])) == (((variant & 4) != 0) ? 45 : 43) ? 62 : 63))))) << 2) | (((unsigned int)(((unsigned char)(b64[4 * (g_m / 3) + 1])) >= 65 && ((unsigned char)(b64[4 * (g_m / 3) + 1])) <= 90 ? ((unsigned char)(b64[4 * (g_m / 3) + 1])) - 65 : (((unsigned char)(b64[4 * (g_m / 3) + 1])) >= 97 && ((unsigned char)(b64[4 * (g_m / 3) + 1])) <= 122 ? ((unsigned char)(b64[4 * (g_m / 3) + 1])) - 71 : (((unsigned char)(b64[4 * (g_m / 3) + 1])) >= 48 && ((unsigned char)(b64[4 * (g_m / 3) + 1])) <= 57 ? ((unsigned char)(b64[4 * (g_m / 3) + 1])) + 4 : (((unsigned char)(b64[4 * (g_m / 3) + 1])) == (((variant & 4) != 0) ? 45 : 43) ? 62 : 63))))) >> 4)) : ((g_m % 3 == 1) ? (unsigned char)(((((unsigned int)(((unsigned char)(b64[4 * (g_m / 3) + 1])) >= 65 && ((unsigned char)(b64[4 * (g_m / 3) + 1])) <= 90 ? ((unsigned char)(b64[4 * (g_m / 3) + 1])) - 65 : (((unsigned char)(b64[4 * (g_m / 3) + 1])) >= 97 && ((unsigned char)(b64[4 * (g_m / 3) + 1])) <= 122 ? ((unsigned char)(b64[4 * (g_m / 3) + 1])) - 71 : (((unsigned char)(b64[4 * (g_m / 3) + 1])) >= 48 && ((unsigned char)(b64[4 * (g_m / 3) + 1])) <= 57 ? ((unsigned char)(b64[4 * (g_m / 3) + 1])) + 4 : (((unsigned char)(b64[4 * (g_m / 3) + 1])) == (((variant & 4) != 0) ? 45 : 43) ? 62 : 63))))) & 15) << 4) | (((unsigned int)(((unsigned char)(b64[4 * (g_m / 3) + 2])) >= 65 && ((unsigned char)(b64[4 * (g_m / 3) + 2])) <= 90 ? ((unsigned char)(b64[4 * (g_m / 3) + 2])) - 65 : (((unsigned char)(b64[4 * (g_m / 3) + 2])) >= 97 && ((unsigned char)(b64[4 * (g_m / 3) + 2])) <= 122 ? ((unsigned char)(b64[4 * (g_m / 3) + 2])) - 71 : (((unsigned char)(b64[4 * (g_m / 3) + 2])) >= 48 && ((unsigned char)(b64[4 * (g_m / 3) + 2])) <= 57 ? ((unsigned char)(b64[4 * (g_m / 3) + 2])) + 4 : (((unsigned char)(b64[4 * (g_m / 3) + 2])) == (((variant & 4) != 0) ? 45 : 43) ? 62 : 63))))) >> 2)) : (unsigned char)(((((unsigned int)(((unsigned char)(b64[4 * (g_m / 3) + 2])) >= 65 && ((unsigned char)(b64[4 * (g_m / 3) + 2])) <= 90 ? ((unsigned char)(b64[4 * (g_m / 3) + 2])) - 65 : (((unsigned char)(b64[4 * (g_m / 3) + 2])) >= 97 && ((unsigned char)(b64[4 * (g_m / 3) + 2])) <= 122 ? ((unsigned char)(b64[4 * (g_m / 3) + 2])) - 71 : (((unsigned char)(b64[4 * (g_m / 3) + 2])) >= 48 && ((unsigned char)(b64[4 * (g_m / 3) + 2])) <= 57 ? ((unsigned char)(b64[4 * (g_m / 3) + 2])) + 4 : (((unsigned char)(b64[4 * (g_m / 3) + 2])) == (((variant & 4) != 0) ? 45 : 43) ? 62 : 63))))) & 3) << 6) | ((unsigned int)(((unsigned char)(b64[4 * (g_m / 3) + 3])) >= 65 && ((unsigned char)(b64[4 * (g_m / 3) + 3])) <= 90 ? ((unsigned char)(b64[4 * (g_m / 3) + 3])) - 65 : (((unsigned char)(b64[4 * (g_m / 3) + 3])) >= 97 && ((unsigned char)(b64[4 * (g_m / 3) + 3])) <= 122 ? ((unsigned char)(b64[4 * (g_m / 3) + 3])) - 71 : (((unsigned char)(b64[4 * (g_m / 3) + 3])) >= 48 && ((unsigned char)(b64[4 * (g_m / 3) + 3])) <= 57 ? ((unsigned char)(b64[4 * (g_m / 3) + 3])) + 4 : (((unsigned char)(b64[4 * (g_m / 3) + 3])) == (((variant & 4) != 0) ? 45 : 43) ? 62 : 63)))))))))
+__CPROVER_ensures((__CPROVER_return_value == 0 && (b64_len & 3) == 2) ==> (((unsigned int)(((unsigned char)(b64[b64_len - 1])) >= 65 && ((unsigned char)(b64[b64_len - 1])) <= 90 ? ((unsigned char)(b64[b64_len - 1])) - 65 : (((unsigned char)(b64[b64_len - 1])) >= 97 && ((unsigned char)(b64[b64_len - 1])) <= 122 ? ((unsigned char)(b64[b64_len - 1])) - 71 : (((unsigned char)(b64[b64_len - 1])) >= 48 && ((unsigned char)(b64[b64_len - 1])) <= 57 ? ((unsigned char)(b64[b64_len - 1])) + 4 : (((unsigned char)(b64[b64_len - 1])) == (((variant & 4) != 0) ? 45 : 43) ? 62 : 63))))) & 15) == 0)
+__CPROVER_ensures((__CPROVER_return_value == 0 && (b64_len & 3) == 3) ==> (((unsigned int)(((unsigned char)(b64[b64_len - 1])) >= 65 && ((unsigned char)(b64[b64_len - 1])) <= 90 ? ((unsigned char)(b64[b64_len - 1])) - 65 : (((unsigned char)(b64[b64_len - 1])) >= 97 && ((unsigned char)(b64[b64_len - 1])) <= 122 ? ((unsigned char)(b64[b64_len - 1])) - 71 : (((unsigned char)(b64[b64_len - 1])) >= 48 && ((unsigned char)(b64[b64_len - 1])) <= 57 ? ((unsigned char)(b64[b64_len - 1])) + 4 : (((unsigned char)(b64[b64_len - 1])) == (((variant & 4) != 0) ? 45 : 43) ? 62 : 63))))) & 3) == 0)
+;
